@@ -356,6 +356,28 @@ def comment_pi_options(ctx: Ctx) -> None:
             # a parser constructed in this function (its options are checked above), named or written in place
             ok = p is not None and bool(leaves_at(fi, c, p)) and all(isinstance(x, ast.Call) and unparse(x.func) == "etree.XMLParser" for x in leaves_at(fi, c, p))
             ctx.ob(f"{name}(parser=<parser that removes comments and PIs>)", ok, at=fi, node=c, construct=f"{name} parser", msg="the default lxml parser keeps comments and processing instructions")
+    # XInclude: libxml2 parses the *included* documents with its default options - the parser options above do not reach them - so
+    # comments / PIs must be stripped again between the inclusion and the walk over the tree
+    g = build_cfg(fi.node)
+    incl = [c for c in calls_in(fi.node) if isinstance(c.func, ast.Attribute) and c.func.attr == "xinclude"]
+    walks = [c for c in calls_in(fi.node) if call_name_of(c) in ("iterwalk", "iter", "iterdescendants")]
+    strips = []
+    for c in calls_in(fi.node):
+        if call_name_of(c) in ("strip_tags", "strip_elements"):
+            texts = {t for a in c.args for t in value_texts(fi, c, a)}
+            if any(t.endswith("Comment") for t in texts) and any(t.endswith(("ProcessingInstruction", "PI")) for t in texts):
+                strips.append(c)
+    for x in incl:
+        xn = node_containing(g, x)
+        after = [w for w in walks for wn in [node_containing(g, w)] if xn is not None and wn is not None and wn.id in g.reachable([xn.id], labels=lambda lab: lab != "exc")]
+        if xn is None or not after:
+            ctx.abstain("walk over the tree after XInclude expansion", at=fi, why="no iterwalk reachable from the xinclude() call")
+            continue
+        sn = {node_containing(g, c).id for c in strips if node_containing(g, c) is not None}
+        ok = all(g.must_pass(xn.id, node_containing(g, w).id, sn, normal_only=True) and bool(sn) for w in after)
+        ctx.ob("after tree.xinclude() comments and PIs of the included documents are stripped before the tree is walked", ok, at=fi, node=x, construct="xinclude strip",
+               msg="libxml2 parses xi:include targets with default options: a comment / PI inside an included document stays in the tree, iterwalk skips it and the text after it (its tail) is lost - "
+                   "<title>Hello<?pi?> World</title> in an included file binds as 'Hello' (the native handler binds 'Hello World')")
     ctx.floor("lxml parser constructions", n, 3)
     # the native handler relies on ElementTree's default TreeBuilder (drops comments and PIs): no custom TreeBuilder / parser argument
     nat = ctx.repo.func(f"{PAR}.handlers.native:XmlEventHandler.parse")
@@ -732,6 +754,27 @@ def stand_in_nodes_track_the_open_element(ctx: Ctx) -> None:
         ok_child = any("ns_map" in value_texts(ch, st, v) for st, v in sets)
         ctx.ob(f"{ci.name}.child (returns self) rebinds self.ns_map to the child element's map", ok_child, at=ch, construct=f"{ci.name} child scope",
                msg="descendants of this node inherit the map of the node's own element: a prefix declared on an intermediate element is lost for its children (native handler; lxml passes full maps)")
+        # ... and what child() saves for bind() to restore is the map that was in scope BEFORE the rebinding: every read of
+        # self.ns_map that flows into a push onto an instance container happens where the rebinding has not taken place yet
+        g = build_cfg(ch.node)
+        set_nodes = {n.id for st, _v in sets for n in [node_containing(g, st)] if n is not None}
+        pushes = []
+        for c in calls_in(ch.node):
+            if not (isinstance(c.func, ast.Attribute) and c.func.attr in ("append", "insert", "extend", "appendleft") and is_self_attr(c.func.value)):
+                continue
+            cn = node_containing(g, c)
+            if cn is None:
+                continue
+            for a in c.args:
+                for leaf, chain in flows(ch, cn, a):
+                    if is_self_attr(leaf, "ns_map"):
+                        pushes.append((c, chain[-1] if chain else cn))
+        if pushes and set_nodes:
+            late = [c for c, read_at in pushes if any(read_at.id in g.reachable([m for m, lab in g.succ[s_] if lab != "exc"], labels=lambda lab: lab != "exc") for s_ in set_nodes)]
+            ctx.ob(f"{ci.name}.child saves the outer map before it rebinds self.ns_map", not late, at=ch, node=late[0] if late else None, construct=f"{ci.name} saved scope",
+                   msg="the map pushed for bind() to restore is read after self.ns_map was rebound: the child's own map is saved, so after a nested element ends the scope of the last closed descendant stays in force (a prefix it re-declared leaks to following siblings / attributes)")
+        elif sets and any(isinstance(x, ast.Attribute) and is_self_attr(x) and x.attr != "ns_map" for st_, tgt, v in stores(bd.node) if is_self_attr(tgt, "ns_map") and v is not None for x in ast.walk(v)):
+            ctx.abstain(f"{ci.name} saved scope", at=ch, why="bind restores self.ns_map from instance state but no push of self.ns_map onto an instance container was found in child()")
         restores = [st for st, tgt, v in stores(bd.node) if is_self_attr(tgt, "ns_map")]
         ctx.ob(f"{ci.name}.bind restores the outer map when a nested element ends", bool(restores), at=bd, construct=f"{ci.name} bind scope", msg="the map of a closed descendant stays in scope for its following siblings")
     ctx.note("C09.R10 stand-in nodes", n)
